@@ -30,8 +30,8 @@ def handle (op : String) (args : List String) : Option String :=
     | "c02.gen.uvsphere", some [r, c] => if r < 2 ∨ c < 3 then some "rejected" else some (genOut (uvVerts r c) (uvSphereTris r c))
     | "c02.gen.uvsphere_unwelded", some [r, c] => if r < 2 ∨ c < 3 then some "rejected" else some (genOut (uvUnweldedVerts r c) (uvUnweldedTris r c))
     | "c02.gen.hemisphere", some [r, c] => if r < 2 ∨ c < 3 then some "rejected" else some (genOut (uvVerts r c) (hemisphereTris r c))
-    | "c02.gen.circle", some [s] => some (genOut (circleVerts s) (circleTris s))
-    | "c02.gen.cylinder", some [s, t, b] => some (genOut (cylinderVerts s (t != 0) (b != 0)) (cylinderTris s (t != 0) (b != 0)))
+    | "c02.gen.circle", some [s] => if s < 3 then some "rejected" else some (genOut (circleVerts s) (circleTris s))
+    | "c02.gen.cylinder", some [s, t, b] => if s < 3 ∧ (t != 0 ∨ b != 0) then some "rejected" else some (genOut (cylinderVerts s (t != 0) (b != 0)) (cylinderTris s (t != 0) (b != 0)))
     | "c02.gen.cone", some [s] => if s < 3 then some "rejected" else some (genOut (coneVerts s) (coneTris s))
     | "c02.gen.quad", some [] => some (genOut quadVerts quadTris)
     | "c02.gen.cube", some [] => some (genOut cubeVerts cubeTris)
